@@ -350,10 +350,11 @@ class SVGLexicalParser:
             if cmd is None:
                 return
             elif cmd == "z" or cmd == "Z":
-                if self._more():
-                    raise ValueError
+                more = self._more()
                 self.parser.closed(relative=cmd.islower())
                 self.inline_close = None
+                if more:
+                    raise ValueError
                 continue
             elif cmd == "m":
                 if not self._more():
